@@ -12,10 +12,10 @@ import (
 // genJoinCase writes one case of the join streams. Stream `join` keeps the barrier discipline (a key
 // is changed by one sub-collection at a time between barriers while subscribers exist); `joinr` does not.
 func genJoinCase(r *wire.Rng, n int, stream string, w *wire.Out) {
-	racy := stream == "joinr"
+	racy := stream == "joinr" || stream == "joinm" // joinm: no discipline needed, changes come back to back
 	ncols := 2 + r.Intn(2)
 	head := []string{"case", fmt.Sprint(n), stream, strconv.Itoa(ncols)}
-	if racy {
+	if stream == "joinr" {
 		head = append(head, "jr")
 	}
 	unchecked := false
@@ -34,7 +34,8 @@ func genJoinCase(r *wire.Rng, n int, stream string, w *wire.Out) {
 		}
 		return h % ncols
 	}
-	jr := newJoinRunState(ncols, racy)
+	jr := newJoinRunState(ncols, stream == "joinr")
+	jr.merge = stream == "joinm"
 	var lines []string
 	emit := func(toks ...string) { lines = append(lines, strings.Join(toks, " ")) }
 	emit(head...)
@@ -85,7 +86,7 @@ func genJoinCase(r *wire.Rng, n int, stream string, w *wire.Out) {
 		for _, s := range subs {
 			emit("stream", s)
 		}
-		if racy {
+		if stream == "joinr" {
 			emit("ulist")
 			for _, ns := range nss {
 				emit("ulookup", ns)
@@ -204,6 +205,9 @@ func (r *joinRun) startState() {
 	r.started = true
 	r.unsafeK = nil
 	r.touched = map[string][]int{}
+	if r.merge {
+		return
+	}
 	for i, m := range r.state {
 		for k := range m {
 			r.touched[k] = append(r.touched[k], i)
